@@ -53,21 +53,35 @@ def isInfixB (p : List Char) : List Char → Bool
   | [] => p.isEmpty
   | c :: t => p.isPrefixOf (c :: t) || isInfixB p t
 
-/-- One pattern against the normalised name `n`.  `rx` lists the regex patterns that match `n`
-(oracle: Go's `regexp`).  `full`/`suffix` patterns containing a character outside
-`ValidDomainChars` — and, since the C11 `fix:`, `keyword` patterns with a character outside the
-Aho-Corasick alphabet — are skipped by `AddSet` (with a warning), i.e. never match; the
-Aho-Corasick library never reports the empty keyword.
-suffix `d`: `n = d` or `n` ends with `"." ++ d`; a pattern starting with `.` only matches proper
-sub-domains.  keyword: substring of `"^" ++ n ++ "$"`. -/
+/-- `ToSuffixTrieString` before the reversal: one trailing `$` is dropped. -/
+def trimDollar (s : List Char) : List Char :=
+  match s.getLast? with
+  | some '$' => s.dropLast
+  | _ => s
+
+/-- the Aho-Corasick library reads every input byte through its table: a byte outside its alphabet
+is read as `a`. -/
+def acNorm (c : Char) : Char := if validAcChar c then c else 'a'
+
+/-- One pattern against the normalised name `n`, at the level of the trie / automaton CONTRACTS
+(`HasPrefix(ToSuffixTrieString("^"+n))` over the stored strings = "a stored string, reversed, is a
+prefix of the reversed query" = "a stored string is a suffix of `^n`"; `Contains` = substring), so
+that it is exact for EVERY name, also names with `^ $ * |` or other bytes outside the alphabet.
+For names of letters, digits, `-`, `_`, `.` this is the documented meaning (C11; `Compose.lean`):
+full = identical, suffix `d` = `n = d` or `n` ends with `"." ++ d` (a pattern starting with `.` only
+proper sub-domains), keyword = substring.  `rx` lists the regex patterns that match `n` (oracle: Go's
+`regexp`).  `full`/`suffix` patterns containing a character outside `ValidDomainChars` and `keyword`
+patterns with a character outside the automaton's alphabet are skipped by `AddSet` (warning), i.e.
+never match; the automaton never reports the empty keyword. -/
 def patMatch (rx : List String) (key : DKey) (pat : String) (n : List Char) : Bool :=
   let p := pat.toList
+  let q := trimDollar ('^' :: n)
   match key with
-  | .full => p.all validDomainChar && n == p
+  | .full => p.all validDomainChar && ('^' :: p).isSuffixOf q
   | .suffix =>
     p.all validDomainChar &&
-      (if p.head? == some '.' then p.isSuffixOf n else (n == p || ('.' :: p).isSuffixOf n))
-  | .keyword => p.all validAcChar && !p.isEmpty && isInfixB p ('^' :: (n ++ ['$']))
+      (if p.head? == some '.' then p.isSuffixOf q else (('.' :: p).isSuffixOf q || ('^' :: p).isSuffixOf q))
+  | .keyword => p.all validAcChar && !p.isEmpty && isInfixB p (('^' :: (n ++ ['$'])).map acNorm)
   | .regex => rx.contains pat
 
 def domSetMatch (rx : List String) (key : DKey) (pats : List String) (n : List Char) : Bool :=
@@ -383,12 +397,20 @@ structure Question where
   name : List Char
   qtype : Nat
   rx : List String     -- regex oracle for this name
+  qclass : Nat := 1    -- IN
+  /-- oracle: `netip.ParseAddr` accepts the name without its trailing dot (`1.2.3.4.`, `::1.`):
+  `__updateDnsCacheDeadline` never stores an answer for such a name ("Bypass pure IP"). -/
+  isIp : Bool := false
 deriving Repr, Inhabited
+
+/-- what the controller uses for a message without question section: name `""`, type 0 -/
+def noQuestion : Question := { name := [], qtype := 0, rx := [] }
 
 structure Cfg where
   nUp : Nat            -- `len(s.upstream)`
   req : Prog
   resp : Prog
+  maxDepth : Nat := 3  -- `MaxDnsLookupDepth` (the harness prints the constant of the code under test)
 deriving Repr, Inhabited
 
 def reqEnv (q : Question) : Env := ⟨q.name, q.qtype, [], 0, q.rx⟩
@@ -417,8 +439,10 @@ def Rec.ip? : Rec → Option Nat
 structure Resp where
   isResponse : Bool
   q : Option Question
-  recs : List Rec
+  recs : List Rec        -- ANSWER section
   rcodeOk : Bool
+  ns : List Rec := []    -- AUTHORITY section
+  extra : List Rec := [] -- ADDITIONAL section
 deriving Repr, Inhabited
 
 inductive RespSel where
@@ -445,26 +469,25 @@ def responseSelect (cfg : Cfg) (r : Resp) («from» : UpRef) : RespSel :=
 
 /-! ## control/dns_control.go -/
 
-def maxDnsLookupDepth : Nat := 3
-
 /-- upstream behaviour: what the upstream asked at recursion depth `d` answers (`none` = failure). -/
 abbrev Upstreams := Nat → UpRef → Option Resp
 
 /-- `dnsResponseAnswersRequest` (fix b94e062): a request without question is not compared; otherwise the
-response must carry a question with the same type and the same name up to case
-(`strings.EqualFold`; ASCII here).  The class is always IN in this model. -/
+response must carry a question with the same type, the same class and the same name up to case
+(`strings.EqualFold`; ASCII here). -/
 def answersQuestion (q? : Option Question) (r : Resp) : Bool :=
   match q? with
   | none => true
   | some q =>
     match r.q with
     | none => false
-    | some rq => rq.qtype == q.qtype && lowerStr rq.name == lowerStr q.name
+    | some rq => rq.qtype == q.qtype && rq.qclass == q.qclass && lowerStr rq.name == lowerStr q.name
 
-/-- `dialSend`: returns the upstreams asked, in order, and the final message or the error. -/
+/-- `dialSend`: returns the upstreams asked, in order, and the final message or the error.
+`reject` empties the ANSWER section only. -/
 def dialSend (cfg : Cfg) (q? : Option Question) (ans : Upstreams) (depth : Nat) (up : UpRef) :
     List UpRef × Except Err Resp :=
-  if _h : depth ≥ maxDnsLookupDepth then ([], .error .tooDeep)
+  if _h : depth ≥ cfg.maxDepth then ([], .error .tooDeep)
   else
     match ans depth up with
     | none => ([up], .error .forwardFail)
@@ -478,7 +501,7 @@ def dialSend (cfg : Cfg) (q? : Option Question) (ans : Upstreams) (depth : Nat) 
       | .next k =>
         let rest := dialSend cfg q? ans (depth + 1) (.up k)
         (up :: rest.1, rest.2)
-termination_by maxDnsLookupDepth - depth
+termination_by cfg.maxDepth - depth
 decreasing_by omega
 
 inductive Scope where
@@ -503,9 +526,21 @@ abbrev Cache := List (CacheKey × List Rec)
 def Cache.lookup (c : Cache) (k : CacheKey) : Option (List Rec) :=
   (c.find? fun e => e.1 == k).map Prod.snd
 
-/-- `RemoveDnsRespCacheFamily(baseKey)`: every scope of the (name, qtype) pair. -/
+/-- decimal digits of a number (`strconv.Itoa` / `qtypeStrCache`) -/
+def digitsFuel : Nat → Nat → List Char
+  | 0, _ => []
+  | f + 1, n => if n < 10 then [Char.ofNat (48 + n)] else digitsFuel f (n / 10) ++ [Char.ofNat (48 + n % 10)]
+
+def natDigits (n : Nat) : List Char := digitsFuel (n + 1) n
+
+/-- `dnsCacheBaseKey(responseCacheKey)`: the response cache key is `name ++ qtype ++ "|" ++ scope` and
+the base key is everything before the FIRST `|` — which is `name ++ qtype` only when the name itself
+contains no `|` (code as it is; a wire name may contain the byte). -/
+def baseKeyOf (k : CacheKey) : List Char := (k.name ++ natDigits k.qtype).takeWhile (· != '|')
+
+/-- `RemoveDnsRespCacheFamily(cacheKey(name, qtype))`: every entry whose base key is the given one. -/
 def Cache.removeFamily (c : Cache) (name : List Char) (qtype : Nat) : Cache :=
-  c.filter fun e => !(e.1.name == name && e.1.qtype == qtype)
+  c.filter fun e => baseKeyOf e.1 != name ++ natDigits qtype
 
 def Cache.store (c : Cache) (k : CacheKey) (v : List Rec) : Cache :=
   (k, v) :: c.filter fun e => !(e.1 == k)
@@ -525,8 +560,10 @@ def scopeOf (dst : Nat) : UpRef → Scope
   | .asis => .asis dst
   | .up k => .up k
 
-/-- `NormalizeAndCacheDnsResp_` stores only healthy responses. -/
-def Resp.cacheable (r : Resp) : Bool := r.isResponse && r.q.isSome && r.rcodeOk
+/-- `NormalizeAndCacheDnsResp_` stores only healthy responses, `__updateDnsCacheDeadline` nothing
+for a name that is an IP literal. -/
+def Resp.cacheable (r : Resp) : Bool :=
+  r.isResponse && r.rcodeOk && (match r.q with | some rq => !rq.isIp | none => false)
 
 /-- One client message through `HandleWithResponseWriter_`.  `q = none`: a message without
 question (name `""`, type 0 on the same path); `isResp`: the client message has the response bit. -/
@@ -534,7 +571,7 @@ def handle (cfg : Cfg) (cache : Cache) (dst : Nat) (isResp : Bool) (q? : Option 
     (ans : Upstreams) : Outcome :=
   if isResp then ⟨[], .error .notRequest, cache⟩
   else
-    let q := q?.getD ⟨[], 0, []⟩
+    let q := q?.getD noQuestion
     match requestSelect cfg q with
     | .err e => ⟨[], .error e, cache⟩
     | .reject => ⟨[], .rejected, cache.removeFamily (canonName q.name) q.qtype⟩
